@@ -5,6 +5,7 @@ all values of the free coefficients of the solution family -- one z3 query per k
 ORIGINAL loop.  (Q3) every synthesised solvable loop (a deterministic program over first moments) takes, for each
 retained variable and the fresh combination variable, the values E[var] resp. E[Q] of the original loop at k <= N.
 (Q4) the effective/defective classification kernel is C18's solver-decided leg."""
+import os
 import sys
 from fractions import Fraction
 from vlib import polar_iface  # noqa
@@ -29,6 +30,11 @@ CASES_THOROUGH = [
     (DEF + "intro2.prob", None, 1, None), (DEF + "deg-6.prob", ["x", "y"], 1, None), (DEF + "squares-and-cube.prob", None, 1, None), (DEF + "pts.prob", None, 1, None),
     (DEF + "fib1.prob", None, 2, 1), (DEF + "bees.prob", None, 1, None), (DEF + "squares-squared.prob", None, 1, None),
 ]
+OWN = os.path.join(os.path.dirname(os.path.dirname(os.path.abspath(__file__))), "corpus_unsolv") + "/"
+# own unsolvable loops: an effective variable whose closed form has a transient (listed beginning values), multiplier k = 0
+# with an initial value that differs from the extrapolated effective part, symbolic initial values
+CASES_OWN = [(OWN + "u01_transient_effective.prob", ["x", "y"], 1, None), (OWN + "u02_zero_multiplier.prob", ["x", "y"], 1, None),
+             (OWN + "u02_zero_multiplier.prob", ["x", "y"], 1, 0), (OWN + "u03_delay_effective.prob", ["x", "y"], 1, None)]
 LOOPS = [(TESTS + "solvable-2dwalk.prob", [], 1), (TESTS + "squares.prob", ["x", "y"], 1), (TESTS + "non-lin-markov-1.prob", ["x", "y"], 1), (TESTS + "deg-5.prob", ["x", "y"], 1)]
 
 
@@ -196,9 +202,9 @@ def job(item):
 def main():
     run = Run("C14", "translation_validation")
     N = 3 if run.quick else 4
-    cases = CASES + ([] if run.quick else CASES_THOROUGH)
+    cases = CASES + CASES_OWN + ([] if run.quick else CASES_THOROUGH)
     items = [{"path": p, "vars": v, "deg": d, "k": k, "N": N, "mode": "inv", "timeout": 200 if run.quick else 600} for p, v, d, k in cases]
-    items += [{"path": p, "vars": v, "deg": d, "k": None, "N": N, "mode": "loop", "timeout": 200 if run.quick else 600} for p, v, d in LOOPS]
+    items += [{"path": p, "vars": v, "deg": d, "k": None, "N": N, "mode": "loop", "timeout": 200 if run.quick else 600} for p, v, d in LOOPS + [(OWN + "u01_transient_effective.prob", ["x", "y"], 1)]]
     # the same loops entered with RANDOM initial values: E[Q(x0, y0)] is not Q(E x0, E y0) for degree >= 2
     rinit = [(TESTS + "non-lin-markov-1.prob", ["x", "y"], 2, None, "x = DiscreteUniform(1, 2)\ny = Bernoulli(1/3)\n"),
              (TESTS + "non-lin-markov-1.prob", ["x", "y"], 1, None, "x = Normal(1, 4)\ny = x + 1 {1/2} x - 2\n"),
